@@ -477,7 +477,64 @@ static int sweep_c11(int argc, char **argv) {
             } else nontriv++;
         }
     }
+    /* a table with a long life behind it: the mapper's session was looked up and recorded, then the table was cleared (a
+     * Reset), or other sessions came and went, N times - N around the widths a counter or an index might have - and the
+     * mapper's Discover is classified again; only what the table holds now counts */
+    unsigned long long hist_cases = 0;
+    {
+        static const long churn_n[] = {1, 2, 15, 16, 17, 255, 256, 257, 511, 512, 513, 65535, 65536, 65537, 131072};
+        static const char *mname[] = {"table-cleared", "other-session-recorded-and-table-cleared", "other-session-recorded-and-removed",
+                                      "own-session-recorded-and-table-cleared", "other-sessions-fill-the-table-and-are-removed"};
+        for (size_t ni = 0; ni < sizeof(churn_n) / sizeof(churn_n[0]); ni++) for (int mode = 0; mode < 5; mode++) for (int ack = 0; ack < 2; ack++) {
+            long N = churn_n[ni];
+            if (mode == 4 && N > 4096) continue;
+            session_table *tab = session_table_create();
+            if (!tab) { viol("C11:setup", "session_table_create failed"); return 0; }
+            int first = 1;
+            for (int step = 0; step < 3; step++) {
+                /* step 0: first Discover (nothing known); step 1: after the churn, same sequence number; step 2: another number */
+                uint16_t xid = (uint16_t)(step == 2 ? XID + 1 : XID);
+                vp_fill_stream(buf, mtu, fseed + 13);
+                size_t o = mk_base(buf, BCAST, MX, 0, 0, BCAST, MX, xid);
+                buf[o++] = GEN >> 8; buf[o++] = GEN & 255; buf[o++] = 0; buf[o++] = 1;
+                for (size_t i = 36; i < 200; i++) buf[i] = 0x80;
+                if (ack) memcpy(buf + 36, OWN, 6);
+                int known = (step > 0 && mode == 2) || (step > 0 && mode == 4) || step == 2;      /* is the mapper's session in the table now? */
+                int changed = step == 2;
+                if (step == 2 && !(mode == 2 || mode == 4)) session_table_add(tab, MX, GEN, XID);   /* recorded again under the old number */
+                int r = derive_session_event(buf, tab, OWN);
+                int e = c11_expect(ack, known && changed);
+                cases++; hist_cases++;
+                if (r != e) {
+                    char key[160];
+                    snprintf(key, sizeof(key), "C11:discover:wrong-event-after-table-history:%s", mname[mode]);
+                    viol(key, "%s x %ld, then Discover (%s, sequence number %s): derive_session_event=%d expected %d",
+                         mname[mode], step == 0 ? 0 : N, ack ? "acknowledging" : "not acknowledging", step == 2 ? "changed" : "as recorded", r, e);
+                    break;
+                } else nontriv++;
+                if (step == 0) {
+                    session_table_add(tab, MX, GEN, XID);
+                    for (long k = 0; k < N; k++) {
+                        uint8_t o6[6] = {2, 0x66, (uint8_t)(k >> 24), (uint8_t)(k >> 16), (uint8_t)(k >> 8), (uint8_t)k};
+                        switch (mode) {
+                            case 0: session_table_clear(tab); break;
+                            case 1: session_table_add(tab, o6, GEN, 3); session_table_clear(tab); break;
+                            case 2: session_table_add(tab, o6, GEN, 3); session_table_remove(tab, o6, GEN); break;
+                            case 3: session_table_add(tab, MX, GEN, XID); session_table_clear(tab); break;
+                            case 4:
+                                for (int j = 0; j < 15; j++) { o6[1] = (uint8_t)(0x40 + j); session_table_add(tab, o6, (uint16_t)(GEN + j), 3); }
+                                for (int j = 14; j >= 0; j--) { o6[1] = (uint8_t)(0x40 + j); session_table_remove(tab, o6, (uint16_t)(GEN + j)); }
+                                break;
+                        }
+                    }
+                }
+                (void)first;
+            }
+            session_table_destroy(tab);
+        }
+    }
     stat_ull("cases", cases);
+    stat_ull("table_history_cases", hist_cases);
     stat_ull("clock_advanced_cases", clk_cases);
     stat_ull("straddling_cases", straddle);
     stat_ull("odd_entry_cases", odd_cases);
